@@ -8,9 +8,9 @@
    (everything else is delegated to the primitive table under the operator's name, like __sub__ dispatch),
    truthiness of bool / None / int / str / list natively and of anything else through the primitive "bool",
    tuple unpacking, indexing of lists by ints, unbound names are errors.
-   Fail-closed choices: a type error, an unknown primitive, an unbound name, an int subtraction that would go
-   negative, a division by zero and an index out of range are all [Stuck] (the refinement theorems prove the
-   translated programs never get there).
+   An index out of range raises IndexError. Fail-closed choices: a type error, an unknown primitive, an
+   unbound name, an int subtraction that would go negative and a division by zero are all [Stuck] (the
+   refinement theorems prove the translated programs never get there).
    Fuel bounds the number of BODY EXECUTIONS of each while loop (the test itself is free), nothing else. *)
 From Coq Require Import String List Bool Arith Lia.
 Import ListNotations.
@@ -186,7 +186,7 @@ Section Sem.
 
   Definition do_index (a i : val) : res val :=
     match a, i with
-    | VList l, VNat k => match nth_error l k with Some v => Ok v | None => Bad end
+    | VList l, VNat k => match nth_error l k with Some v => Ok v | None => Exc "IndexError" end
     | _, _ => P "getitem" [a; i] []
     end.
 
